@@ -19,7 +19,7 @@ def owner_ranges(src: str) -> dict:
     rng: dict = {}
     cur = None
     for i, l in enumerate(lines, 1):
-        m = re.match(r'(?:async )?def (thread_body_\d+|task_body_\d+)\(', l)
+        m = re.match(r'(?:async )?def (thread_body_\d+|task_body_\d+|stress_body_\d+)\(', l)
         if m:
             cur = m.group(1)
             rng[cur] = [i + 1, i + 1]      # body only: the `def` line itself is executed by the defining (main) thread
@@ -46,6 +46,15 @@ def oracle(sp: dict, t: dict) -> list[str]:
             for fn, (a, b) in ranges.items():
                 if a <= e['line_no'] <= b:
                     by_owner.setdefault(fn, set()).add(e['trace_no'])
+    # the text of a prompt is what *this* trace's debugger printed: every location line in it (`> file(line)function()`) names a
+    # function this trace executes — never the worker function of another thread/task
+    for e in evs:
+        if e['_type'] == 'OnStartPrompt':
+            for fn in re.findall(r'> [^\n(]*\(\d+\)(\w+)\(\)', e.get('prompt_text') or ''):
+                if fn in ranges and by_owner.get(fn) and e['trace_no'] not in by_owner[fn]:
+                    msgs.append(f"the prompt text of trace {e['trace_no']} shows a location in {fn}, which runs in trace {sorted(by_owner[fn])}: "
+                                f"{e['prompt_text'][:120]!r}")
+                    break
     tns = list(info)
     if len(set(tns)) != len(tns):
         msgs.append('trace numbers are not distinct')
@@ -138,6 +147,7 @@ def run(chk: common.Check) -> None:
     for i, s in enumerate(specs):
         if i % 3 == 1 and s['trace_threads']:
             s['policy'] = {'kind': 'withhold', 'command': 'next'}
+    specs += _trace.stress_specs(chk, 8 if chk.tier == 'quick' else 60)
     results = _trace.run_specs(specs)
     lines: list[str] = []
     spans = []
